@@ -283,6 +283,8 @@ def core_specs(P: str = "U", variant: int = 0) -> list[CS]:
                 FS("nc", "prop", "str", "str", compare=False, default='""'),
                 FS("ni", "prop", "int", "int", init=False, default="7"),
                 FS("nci", "prop", "int", "int", init=False, compare=False, default="9"),
+                FS("nit", "prop", "tuple[int, ...]", "tint", init=False, default="(1, 2)"),
+                FS("nip", "prop", "Path", "path", init=False, compare=False, default='Path("n/i")'),
                 FS("kw", "prop", "int", "int", kw_only=True, default="0"),
                 FS("id_", "child", f"{E} | None", "opt", (E,), default="None"),
                 FS("kids", "child", f"tuple[{P}Leaf | {P}Un, ...]", "tuple", (f"{P}Leaf", f"{P}Un"), default="()"),
